@@ -321,7 +321,7 @@ def via_shortcut(rng, impl, ti, op):
     op["sc"] = [name, ref]
 
 
-def random_op(rng, impl, ti, *, labels, malformed=0.1, typed=False, ops=None, did_rate=0.15, dids=(1001, 1002, "x", "y", 7, 0, "")):
+def random_op(rng, impl, ti, *, labels, malformed=0.1, typed=False, ops=None, did_rate=0.15, dids=(1001, 1002, "x", "y", 7, 0, "", "A", "a1")):
     """one random (mostly valid) op on tree ti, based on the implementation's current shape"""
     t = impl.trees[ti]
     paths = paths_of(t)
@@ -487,10 +487,10 @@ def random_op(rng, impl, ti, *, labels, malformed=0.1, typed=False, ops=None, di
             op["a"] = rng.choice(labels)
         elif r < 0.7:
             op["a"] = rng.choice(labels)
-            op["did"] = rng.choice([1001, 1002, "x", 7, 0, ""])
+            op["did"] = rng.choice([1001, 1002, "x", 7, 0, "", "A"])
         elif r < 0.85:
             op["a"] = None
-            op["did"] = rng.choice([1001, 1002, "x", 7, 0, ""])
+            op["did"] = rng.choice([1001, 1002, "x", 7, 0, "", "A"])
         else:
             op["a"] = rng.choice([x for x in labels if isinstance(x, int) and x < 12] or labels)
             op["via"] = "rename"
